@@ -349,6 +349,11 @@ def run(rep, ctx):
         for n in body.walk():
             if n["k"] == "BinaryOperator" and n.get("op") in ("==", "!="):
                 ts = [strip(x, casts=False).get("ct", "") for x in kids(n)]
+                if all(("char *" in t or "char*" in t) for t in ts) and len(ts) == 2:
+                    # ==/!= on two character pointers compares addresses: two separately built, identical strings differ
+                    t2.fail("cmp|%s|%s|by-address" % (key, HB.norm(kids(n)[0])[1]), short_loc(n.get("l")),
+                            "%s: `%s` compares the addresses of two strings, not their characters: structurally identical trees compare "
+                            "unequal (while their hashes agree)" % (short_name(body), render(n)[:80]))
                 if any(t in ("double", "float", "long double") for t in ts):
                     t3.fail("cmp|%s|%s" % (key, HB.norm(kids(n)[0])[1]), short_loc(n.get("l")),
                             "%s: built-in `%s` on floating operands: Equal(e, e) is false when the "
